@@ -22,6 +22,15 @@ def probe_writes(cap, k=17):
 def gen_case(r, idx, tmpdir):
     ctr = [idx * 64]
     cfg = simgen.gen_config(r, rich=True)
+    if idx % 5 == 2 and sum(1 for b in cfg["boards"] if b["uid"][0] & 0x10) == 1:
+        # (one track output only: with several, deferral reorders messages across nodes, which the model does not describe)
+        # a shutdown burst above the response budget of one node: 7-9 trains (no functions, no initial values, so start-up is
+        # unchanged); soft-stop + one zero-speed command per train exceed 48 bytes, the last ones wait for the first answers
+        used = {(t["addrl"], t["addrh"]) for t in cfg["trains"]}
+        while len(cfg["trains"]) < 7 + idx % 3:
+            a = (r.range(1, 250), r.range(0, 0x27))
+            if a in used: continue
+            used.add(a); cfg["trains"].append({"addrl": a[0], "addrh": a[1], "steps": r.choice([14, 28, 126]), "periphs": []})
     nb = len(cfg["boards"])
     tree = simgen.gen_tree(r, cfg, ctr, present=[i for i in range(nb) if r.chance(4, 5)], maxfan=3)
     truth = simgen.truth_of(tree, cfg)
